@@ -16,7 +16,7 @@ Qed.
 
 Lemma dynamic_receiver_sig s : print_sig (dynamic_impl_receiver s) = c07_target_sig true s.
 Proof.
-  unfold dynamic_impl_receiver, c07_target_sig, first_is_receiver.
+  unfold dynamic_impl_receiver, receiver_lifetime, c07_target_sig, first_is_receiver.
   destruct (p_items (s_inputs s)) as [|[x r m c|x p ty] rest]; reflexivity.
 Qed.
 
@@ -92,7 +92,7 @@ Lemma dynamic_target_sig_full subs o s :
   print_sig (make_trait_fn_sig (dynamic_impl_receiver s) subs o)
   = c07_target_sig_full true (contains_async_trait subs) (future_send o) s.
 Proof.
-  unfold make_trait_fn_sig, dynamic_impl_receiver, c07_target_sig_full, c07_target_sig, first_is_receiver.
+  unfold make_trait_fn_sig, dynamic_impl_receiver, receiver_lifetime, c07_target_sig_full, c07_target_sig, first_is_receiver.
   destruct (p_items (s_inputs s)) as [|[x r m c|x p ty] rest]; cbn [s_async];
     destruct (s_async s && negb (contains_async_trait subs)); reflexivity.
 Qed.
